@@ -48,6 +48,9 @@ func (s Sort) String() string {
 		}
 		return "(_ FloatingPoint 11 53)"
 	case SString:
+		if bstrL > 0 {
+			return fmt.Sprintf("(_ BitVec %d)", 8*bstrL+8)
+		}
 		return "String"
 	case SInt:
 		return "Int"
@@ -116,6 +119,13 @@ func smtStringLit(s string) string {
 }
 
 func StrC(s string) *Term {
+	if bstrL > 0 {
+		lit := "|string-constant-longer-than-the-bound|"
+		if len(s) <= bstrL {
+			lit = bsLit(s)
+		}
+		return &Term{Sort: StrSort, S: lit, Const: true, Str: s, size: 1}
+	}
 	return &Term{Sort: StrSort, S: smtStringLit(s), Const: true, Str: s, size: 1}
 }
 
@@ -664,9 +674,89 @@ func FPToInt(a *Term, signed bool, w int) *Term {
 
 // ---------- strings / ints ----------
 
+// bstrL > 0 selects the bounded bit-vector representation of strings: a string of at most bstrL
+// bytes is one bit-vector of 8*bstrL+8 bits: bytes big-endian in the high bits, zero padded, length
+// in the low 8 bits.  On canonical values (padding zero, length <= bstrL) equality is bit equality
+// and Go's lexicographic order is unsigned bit-vector order.  bstrL == 0: SMT-LIB strings.
+var bstrL = 0
+
+func bsContentSort() Sort { return BVSort(8 * bstrL) }
+
+func bsContent(a *Term) *Term {
+	return app(bsContentSort(), fmt.Sprintf("(_ extract %d 8)", 8*bstrL+7), a)
+}
+func bsLen8(a *Term) *Term { return app(BVSort(8), "(_ extract 7 0)", a) }
+
+func bsLit(s string) string {
+	var b strings.Builder
+	b.WriteString("#x")
+	for i := 0; i < bstrL; i++ {
+		if i < len(s) {
+			fmt.Fprintf(&b, "%02x", s[i])
+		} else {
+			b.WriteString("00")
+		}
+	}
+	fmt.Fprintf(&b, "%02x", len(s))
+	return b.String()
+}
+
+// bsShift converts a 64-bit byte count into a content-width bit count (count*8).
+func bsShift(n *Term) *Term {
+	cw := 8 * bstrL
+	var t *Term
+	switch {
+	case cw == 64:
+		t = n
+	case cw > 64:
+		t = app(BVSort(cw), fmt.Sprintf("(_ zero_extend %d)", cw-64), n)
+	default:
+		t = app(BVSort(cw), fmt.Sprintf("(_ extract %d 0)", cw-1), n)
+	}
+	three := &Term{Sort: BVSort(cw), S: fmt.Sprintf("(_ bv3 %d)", cw), size: 1}
+	// saturate: counts >= bstrL bytes shift everything out
+	big := app(BoolSort, "bvuge", n, BVC(64, uint64(bstrL)))
+	full := &Term{Sort: BVSort(cw), S: fmt.Sprintf("(_ bv%d %d)", cw, cw), size: 1}
+	return Ite(big, full, app(BVSort(cw), "bvshl", t, three))
+}
+
+func bsOnes() *Term {
+	cw := 8 * bstrL
+	return &Term{Sort: BVSort(cw), S: "#x" + strings.Repeat("ff", bstrL), size: 1}
+}
+
+// bsKeepMask(n): the n high bytes set, the rest clear (n: 64-bit byte count).
+func bsKeepMask(n *Term) *Term {
+	return app(bsContentSort(), "bvnot", app(bsContentSort(), "bvlshr", bsOnes(), bsShift(n)))
+}
+
+func bsMake(content, len8 *Term) *Term { return app(StrSort, "concat", content, len8) }
+
+// bsCanonical: the representation invariant of a symbolic bounded string.
+func bsCanonical(a *Term) *Term {
+	l := StrLen(a)
+	zero := &Term{Sort: bsContentSort(), S: fmt.Sprintf("(_ bv0 %d)", 8*bstrL), size: 1}
+	return And(bvCmp("bvule", l, BVC(64, uint64(bstrL))),
+		Eq(app(bsContentSort(), "bvand", bsContent(a), app(bsContentSort(), "bvlshr", bsOnes(), bsShift(l))), zero))
+}
+
+// strFits: the condition under which a ++ b stays within the representation bound.
+func strFits(a, b *Term) *Term {
+	if bstrL == 0 {
+		return True
+	}
+	if a.Const && b.Const {
+		return BoolC(len(a.Str)+len(b.Str) <= bstrL)
+	}
+	return bvCmp("bvule", bvBin("bvadd", StrLen(a), StrLen(b)), BVC(64, uint64(bstrL)))
+}
+
 func StrLen(a *Term) *Term {
 	if a.Const {
 		return BVC(64, uint64(len(a.Str)))
+	}
+	if bstrL > 0 {
+		return app(BVSort(64), "(_ zero_extend 56)", bsLen8(a))
 	}
 	return app(BVSort(64), "(_ int2bv 64)", app(IntSort, "str.len", a))
 }
@@ -688,6 +778,10 @@ func StrConcat(a, b *Term) *Term {
 	if b.Const && b.Str == "" {
 		return a
 	}
+	if bstrL > 0 {
+		content := app(bsContentSort(), "bvor", bsContent(a), app(bsContentSort(), "bvlshr", bsContent(b), bsShift(StrLen(a))))
+		return bsMake(content, app(BVSort(8), "bvadd", bsLen8(a), bsLen8(b)))
+	}
 	return app(StrSort, "str.++", a, b)
 }
 
@@ -696,12 +790,21 @@ func StrAt(s, i *Term) *Term {
 	if s.Const && i.Const && i.U < uint64(len(s.Str)) {
 		return BVC(8, uint64(s.Str[i.U]))
 	}
+	if bstrL > 0 {
+		cw := 8 * bstrL
+		return app(BVSort(8), fmt.Sprintf("(_ extract %d %d)", cw-1, cw-8), app(bsContentSort(), "bvshl", bsContent(s), bsShift(i)))
+	}
 	return app(BVSort(8), "(_ int2bv 8)", app(IntSort, "str.to_code", app(StrSort, "str.at", s, BV2Int(i))))
 }
 
 func StrSub(s, lo, hi *Term) *Term {
 	if s.Const && lo.Const && hi.Const && lo.U <= hi.U && hi.U <= uint64(len(s.Str)) {
 		return StrC(s.Str[lo.U:hi.U])
+	}
+	if bstrL > 0 {
+		n := bvBin("bvsub", hi, lo)
+		shifted := app(bsContentSort(), "bvshl", bsContent(s), bsShift(lo))
+		return bsMake(app(bsContentSort(), "bvand", shifted, bsKeepMask(n)), Extract(7, 0, n))
 	}
 	return app(StrSort, "str.substr", s, BV2Int(lo), BV2Int(bvBin("bvsub", hi, lo)))
 }
@@ -710,17 +813,27 @@ func StrLt(a, b *Term) *Term {
 	if a.Const && b.Const {
 		return BoolC(a.Str < b.Str)
 	}
+	if bstrL > 0 {
+		return app(BoolSort, "bvult", a, b)
+	}
 	return app(BoolSort, "str.<", a, b)
 }
 func StrLe(a, b *Term) *Term {
 	if a.Const && b.Const {
 		return BoolC(a.Str <= b.Str)
 	}
+	if bstrL > 0 {
+		return app(BoolSort, "bvule", a, b)
+	}
 	return app(BoolSort, "str.<=", a, b)
 }
 func StrPrefixOf(p, s *Term) *Term {
 	if p.Const && s.Const {
 		return BoolC(strings.HasPrefix(s.Str, p.Str))
+	}
+	if bstrL > 0 {
+		return And(bvCmp("bvule", StrLen(p), StrLen(s)),
+			Eq(app(bsContentSort(), "bvand", bsContent(s), bsKeepMask(StrLen(p))), bsContent(p)))
 	}
 	return app(BoolSort, "str.prefixof", p, s)
 }
@@ -729,6 +842,10 @@ func StrPrefixOf(p, s *Term) *Term {
 func StrFromByte(b *Term) *Term {
 	if b.Const {
 		return StrC(string([]byte{byte(b.U)}))
+	}
+	if bstrL > 0 {
+		pad := &Term{Sort: BVSort(8*bstrL - 8), S: fmt.Sprintf("(_ bv0 %d)", 8*bstrL-8), size: 1}
+		return bsMake(app(bsContentSort(), "concat", b, pad), BVC(8, 1))
 	}
 	return app(StrSort, "str.from_code", BV2Int(b))
 }
